@@ -127,8 +127,20 @@ macro_rules! conc_mod {
             use gdsl::$fl::*;
             conc_kind!($kind);
 
-            pub fn do_call(nodes: &[N], c: &Call) -> String {
-                let find = |k: usize| nodes.iter().find(|n| *n.key() == k).expect("node").clone();
+            /// `local`: nodes that exist only in the calling thread (`m.K.V` makes one, `k.K` drops its only handle)
+            pub fn do_call(nodes: &[N], local: &mut Vec<N>, c: &Call) -> String {
+                match c.kind {
+                    'm' => {
+                        local.push(N::new(c.a, c.b as i64));
+                        return "ok".into();
+                    }
+                    'k' => {
+                        local.retain(|n| *n.key() != c.a);
+                        return "ok".into();
+                    }
+                    _ => {}
+                }
+                let find = |k: usize| local.iter().chain(nodes.iter()).find(|n| *n.key() == k).expect("node").clone();
                 match c.kind {
                     'c' => {
                         find(c.a).connect(&find(c.b), c.e);
@@ -162,7 +174,10 @@ macro_rules! conc_mod {
                 for calls in threads {
                     let ns = nodes.clone();
                     let calls = calls.clone();
-                    bodies.push(Box::new(move || calls.iter().map(|c| do_call(&ns, c)).collect::<Vec<_>>().join("+")));
+                    bodies.push(Box::new(move || {
+                        let mut local: Vec<N> = vec![];
+                        calls.iter().map(|c| do_call(&ns, &mut local, c)).collect::<Vec<_>>().join("+")
+                    }));
                 }
                 let out = sched::run_once(forced, forced_ids, bodies);
                 let dump = std::panic::catch_unwind(std::panic::AssertUnwindSafe(|| crate::exec::$m::dump(st))).unwrap_or_else(|_| "POISONED".into());
@@ -204,9 +219,10 @@ macro_rules! conc_mod {
                         }
                     }
                     let mut res: Vec<Vec<String>> = threads.iter().map(|_| vec![]).collect();
+                    let mut locals: Vec<Vec<N>> = threads.iter().map(|_| vec![]).collect();
                     for (t, i) in order {
                         let c = &threads[t][i];
-                        let r = do_call(&st.nodes, c);
+                        let r = do_call(&st.nodes, &mut locals[t], c);
                         if c.is_mutator() {
                             res[t].push(r);
                         }
